@@ -108,7 +108,7 @@ class Run:
 
     # ------------------------------------------------------------------ Coq
     def coqc(self, vfile, timeout=900):
-        cmd = ["coqc", "-q", "-Q", COQLIB, "GLMV", "-Q", self.dir, "W", vfile]
+        cmd = ["coqc", "-q", "-Q", COQLIB, "GLMV", "-Q", os.path.join(VERIF, "coq", "models"), "GLMM", "-Q", self.dir, "W", vfile]
         rc, out, err, dt = sh(cmd, cwd=self.dir, timeout=timeout)
         self.logonly("== coqc %s rc=%d %.1fs" % (os.path.basename(vfile), rc, dt))
         if rc != 0:
@@ -270,6 +270,35 @@ class Run:
         if rc not in (0, 1):
             self.broken.append({"what": "oracle program %s crashed (rc=%d)" % (os.path.basename(exe), rc), "detail": (err or out)[-2000:]})
         return fails, stats, samples
+
+    # ------------------------------------------------------------------ correspondence: extracted model vs implementation
+    def run_corr(self, impl_src, args, flags=(), timeout=1800):
+        """build tools/corr/<impl_src> against /repo, pipe its 'fn args = outs' lines into the extracted model driver.
+        A mismatch means the hand model no longer describes the code (or the code changed): recorded as a broken
+        correspondence; returns (cases, mismatch lines)"""
+        exe = os.path.join(self.dir, os.path.splitext(impl_src)[0])
+        ok, err = self.build_cpp(os.path.join(VERIF, "tools", "corr", impl_src), exe, flags, opt="-O1")
+        if not ok:
+            self.broken.append({"what": "correspondence driver %s does not compile against /repo" % impl_src, "detail": err[-2500:]})
+            return 0, []
+        model = os.path.join(VERIF, "coq", "extract", "corr_model")
+        cmd = "%s %s | %s" % (shlex.quote(exe), " ".join(shlex.quote(str(a)) for a in args), shlex.quote(model))
+        rc, out, err, dt = sh(cmd, timeout=timeout)
+        self.logonly("== corr", cmd, "rc=%d %.1fs" % (rc, dt))
+        cases = 0; mism = []; per = {}
+        for l in out.split("\n"):
+            if l.startswith("CORR "):
+                d = dict(re.findall(r"(\w+)=(\S+)", l)); cases += int(d.get("cases", 0)); per[d.get("fn")] = (int(d.get("cases", 0)), int(d.get("mismatches", 0)))
+            elif l.startswith("MISMATCH") or l.startswith("UNKNOWN"):
+                mism.append(l)
+        self.cov["correspondence_cases"] = self.cov.get("correspondence_cases", 0) + cases
+        self.cov.setdefault("correspondence_per_function", {}).update({k: {"cases": v[0], "mismatches": v[1]} for k, v in per.items()})
+        if rc != 0 or cases == 0:
+            self.broken.append({"what": "correspondence run of %s failed (rc=%d, %d cases)" % (impl_src, rc, cases), "detail": (err or out)[-1500:]})
+        bad = sorted(k for k, v in per.items() if v[1])
+        if bad:
+            self.broken.append({"what": "correspondence: the hand-written model disagrees with the implementation for " + ", ".join(bad), "detail": "\n".join(mism[:12])})
+        return cases, mism
 
     # ------------------------------------------------------------------ known findings
     def load_known(self):
